@@ -188,6 +188,38 @@ def _analyse(ctx, R, name, partial_parser=False, request=False):
                         if partial_parser and len(empt) >= 2:
                             ok_loop = True
                             guard_ok = all(any(e in dom.get(x, set()) for e in empt) for x in hb)
+    # the same copy written as a fold: `fields.iter().fold(builder, |b, h| b.header(h.name, h.value))` (partial parser: after a
+    # take_while on the emptiness test)
+    fold_same = None
+    if not ok_loop:
+        for lb in [x for x in reachable_from(prog, [b]) if not x.is_derived and x.kind != "Closure"]:
+            folds = [t for _, t in lb.calls() if short(callee_path(t) or "").split("::")[-1] == "fold"]
+            if not folds:
+                continue
+            for c in prog.closures_of(lb):
+                hb = [bb for bb, t in c.calls() if short(callee_path(t) or "").endswith("Builder::header")]
+                if len(hb) != 1:
+                    continue
+                pdc = c.postdominators(exits=c.return_blocks())
+                if hb[0] in pdc.get(0, set()) or hb[0] == 0:
+                    ok_loop = True          # the append runs on every path through the fold step
+                    # name and value of the append come from the same element (the closure's second argument)
+                    try:
+                        hookc = call_recorder(r"Builder::header$")
+                        Ic = mk_interp(prog, event_hook=hookc)
+
+                        def initc(st):
+                            st.write_leaf(("OBJ", "h"), (), ("term", ("in", "h")))
+                        outc = Ic.run(c, [{(): ("term", ("in", "env"))}, {(): ("term", ("in", "acc"))}, ref(("OBJ", "h"))], initc)
+                        evs = [e for o_ in outc for e in o_.state.events if e[0].endswith("Builder::header")]
+                        fold_same = bool(evs) and all(_same_element(e) and "('in', 'h')" in repr(e[1][1]) for e in evs)
+                    except (PathLimit, Unsupported):
+                        fold_same = False
+            if partial_parser and ok_loop:
+                tw = [c for c in prog.closures_of(lb) if sum(1 for _, t in c.calls() if short(callee_path(t) or "").endswith("is_empty")) >= 2]
+                has_tw = any(short(callee_path(t) or "").split("::")[-1] == "take_while" for _, t in lb.calls())
+                guarded = True
+                guard_ok = bool(tw) and has_tw
     # the loop must iterate the tokeniser's field slice itself, not a filtered / truncated view of it
     partial_views = []
     if not partial_parser:
@@ -209,7 +241,7 @@ def _analyse(ctx, R, name, partial_parser=False, request=False):
     # iterations beyond the loop bound carry no origin information (recycled atoms / unknowns)
     inform = [e for e in hdr_ev if e[1][1] != ("top",) and e[1][2] != ("top",) and "'*'" not in repr(e[1][1]) and "widen" not in repr(e[1][1])
               and not isinstance(e[1][1], str)]
-    same = all(_same_element(e) for e in inform) and bool(inform)
+    same = (all(_same_element(e) for e in inform) and bool(inform)) if fold_same is None else fold_same
     ctx.check(same, R, "same-element:" + name, "each append takes name and value from the same parsed field", loc=body_loc(b))
     # the array handed to the tokeniser has the caller's limit N
     rep = [s for blk in b.blocks for s in blk["stmts"] if s["k"] == "assign" and s["rv"]["k"] == "repeat"]
